@@ -285,6 +285,8 @@ RESP['GetPlaylists'] = inline('%spl_wf(cv) ==> (x@.len() * 2 == cv.len() && fora
 RESP['Count'] = dec('res::Count::from_frame')
 for s_ in ('AlbumArt', 'AlbumArtEmbedded'): RESP[s_] = dec('res::AlbumArt::from_frame', 'C17 C16')
 RESP['StickerGet'] = dec('res::StickerGet::from_frame')
+# grouped count: the decoder is under a panic-freedom contract only (generic iterator): resp_ok / resp_err say nothing, but the body is verified
+RESP['CountGrouped'] = inline('true', 'true', props='C12')
 # [C16 oracle] addid answers `Id: <song id>`; update / rescan answer `updating_db: <job id>`
 RESP['Add'] = inline('req::<u64>(cv, "Id"@) == Some(x.0)', 'req::<u64>(cv, "Id"@) is None',
                      extra='  mutparam frame\n  try? all\n  tokens? N17 ".map(SongId)" ".map(|vx_x: u64| -> (vx_r: SongId) ensures vx_r == SongId(vx_x) { SongId(vx_x) })"')
